@@ -580,6 +580,49 @@ func runC08(c *Ctx) {
 		}
 		digests[i] = h.Sum(nil)
 	})
+	// two Go spellings of one label: the encoders must refuse (otherwise the output holds a duplicate key)
+	for _, l := range []int64{1, 4, 33, 99, 300} {
+		for t1 := 0; t1 < gen.IntSpellings; t1++ {
+			for t2 := t1 + 1; t2 < gen.IntSpellings; t2++ {
+				if !gen.Fits(l, t1) || !gen.Fits(l, t2) || !gen.Fits(l+100, t1) || !gen.Fits(l+100, t2) {
+					continue
+				}
+				var v1, v2 any = []byte{1}, []byte{2}
+				if l == 1 {
+					v1, v2 = cose.AlgorithmES256, cose.AlgorithmES256
+				}
+				m := map[any]any{gen.SpellIntAs(l, t1): v1, gen.SpellIntAs(l, t2): v2, int64(77): int64(1)}
+				encs := map[string]func() ([]byte, error){
+					"ProtectedHeader.MarshalCBOR":   func() ([]byte, error) { return cose.ProtectedHeader(m).MarshalCBOR() },
+					"UnprotectedHeader.MarshalCBOR": func() ([]byte, error) { return cose.UnprotectedHeader(m).MarshalCBOR() },
+					"Sign1Message.MarshalCBOR(protected)": func() ([]byte, error) {
+						return (&cose.Sign1Message{Headers: cose.Headers{Protected: m}, Payload: []byte("p"), Signature: []byte{1}}).MarshalCBOR()
+					},
+					"Signature.MarshalCBOR(unprotected)": func() ([]byte, error) {
+						return (&cose.Signature{Headers: cose.Headers{Unprotected: m}, Signature: []byte{1}}).MarshalCBOR()
+					},
+					"Key.MarshalCBOR(params)": func() ([]byte, error) {
+						return (&cose.Key{Type: 77, Params: map[any]any{gen.SpellIntAs(l+100, t1): v1, gen.SpellIntAs(l+100, t2): v2}}).MarshalCBOR()
+					},
+				}
+				for name, enc := range encs {
+					in := map[string]any{"type": name, "label": l, "spellings": gen.SpellNames[t1] + "+" + gen.SpellNames[t2]}
+					var out []byte
+					var err error
+					if guard(rec, name, in, func() { out, err = enc() }) {
+						continue
+					}
+					rec.Eval(1)
+					rec.Event("duplicate-spelling-cases")
+					rec.Class("duplicate-spellings/" + name)
+					if err == nil {
+						in["output"] = mon.FullHex(out)
+						rec.Violate("duplicate-key-emitted", name, "two Go spellings of one label were both encoded: the output holds a duplicate map key", in)
+					}
+				}
+			}
+		}
+	}
 	// cross-process determinism: two freshly started children recompute the digest over a slice of the cases
 	all := sha256.New()
 	sub := n
